@@ -642,6 +642,16 @@ theorem Pos.mono {H : History} {b b' : Time} {s : LState} {todo : List Line} (h 
 def Blocked (adv : Time) (remaining : List Line) : Prop :=
   remaining = [] ∨ ∃ ts p tl, remaining = .recd ts p :: tl ∧ adv < ts
 
+/-- nothing more can be delivered now, and if that is because everything is consumed the loader knows it -/
+def Settled (adv : Time) (s : LState) (remaining : List Line) : Prop :=
+  (remaining = [] ∧ (s.st = .exhausted ∨ s.st = .complete)) ∨
+  ∃ ts p tl, remaining = .recd ts p :: tl ∧ adv < ts
+
+theorem Settled.blocked {adv : Time} {s : LState} {r : List Line} (h : Settled adv s r) : Blocked adv r := by
+  rcases h with ⟨h, _⟩ | h
+  · exact Or.inl h
+  · exact Or.inr h
+
 /-- what a `load` call (or the rest of one) achieves on the lines `todo` still to be consumed -/
 def Achieves (H : History) (o : Opts) (a : LoadArgs) (evs : List Event) (todo : List Line)
     (out : LoadOut) : Prop :=
@@ -649,7 +659,7 @@ def Achieves (H : History) (o : Opts) (a : LoadArgs) (evs : List Event) (todo : 
     out = .done t s' (evs ++ deliverable consumed) ∧
     (∀ t ∈ tsOf consumed, t ≤ a.clock + o.la) ∧
     Pos H (a.clock + o.la) s' remaining ∧
-    (a.limit = none → a.upcoming = none → Blocked (a.clock + o.la) remaining)
+    (a.limit = none → a.upcoming = none → Settled (a.clock + o.la) s' remaining)
 
 /-- the statement about going on after a finished file `f`, with the files `later` still to come -/
 def LoopSpec (H : History) (o : Opts) (a : LoadArgs) (later : List File) : Prop :=
@@ -832,7 +842,7 @@ theorem loop_spec (H : History) (o : Opts) (a : LoadArgs) (hfix : o.fix = .new) 
         (by rw [hfr]; simp)
       simpa [scan] using this
     refine ⟨[], [], some lc, exhaustedState s, rfl, ?_, by simp [tsOf], .exhausted rfl (Or.inl rfl) rfl,
-      fun _ _ => Or.inl rfl⟩
+      fun _ _ => Or.inl ⟨rfl, Or.inl rfl⟩⟩
     have hb : (St.switching != St.initial) = true := rfl
     simp [loadLoop, hst, hT, hb, hscan, deliverable]
   | cons g later ih =>
@@ -963,9 +973,10 @@ theorem load_spec (H : History) (o : Opts) (a : LoadArgs) (hfix : o.fix = .new) 
     subst htodo
     rcases hst with hst | hst
     · obtain ⟨t, s', hl, hst', hg'⟩ := load_exhausted H o a s hst hgen
-      exact ⟨[], [], t, s', rfl, by rw [hl]; rfl, by simp [tsOf], .exhausted rfl hst' hg', fun _ _ => Or.inl rfl⟩
+      exact ⟨[], [], t, s', rfl, by rw [hl]; rfl, by simp [tsOf], .exhausted rfl hst' hg',
+        fun _ _ => Or.inl ⟨rfl, hst'⟩⟩
     · exact ⟨[], [], _, s, rfl, by rw [load_complete H o a s hst]; rfl, by simp [tsOf],
-        .exhausted rfl (Or.inr hst) hgen, fun _ _ => Or.inl rfl⟩
+        .exhausted rfl (Or.inr hst) hgen, fun _ _ => Or.inl ⟨rfl, Or.inr hst⟩⟩
   | inFile later f post need rest cur adv hH hgen hadv htr htodo hsorted hle hnone hsome =>
     have hst : s.st = .streaming ∨ s.st = .awaiting := by
       cases need with
@@ -1004,7 +1015,8 @@ theorem start_spec (H : History) (o : Opts) (a : LoadArgs) (hfix : o.fix = .new)
       have hb : ((({} : LState).st) != St.initial) = false := rfl
       simp [loadLoop, hb, hscan]
     rw [this]
-    exact ⟨[], [], _, _, rfl, rfl, by simp [tsOf], .exhausted rfl (Or.inl rfl) rfl, fun _ _ => Or.inl rfl⟩
+    exact ⟨[], [], _, _, rfl, rfl, by simp [tsOf], .exhausted rfl (Or.inl rfl) rfl,
+      fun _ _ => Or.inl ⟨rfl, Or.inl rfl⟩⟩
   | some x =>
     obtain ⟨pre, f, post⟩ := x
     rw [hs] at hscan
@@ -1056,7 +1068,7 @@ def TraceOK (H : History) (o : Opts) : List LoadArgs → List Line → List Load
   | a :: as, todo, outs =>
     ∃ c r t s' rest, outs = .done t s' (deliverable c) :: rest ∧ todo = c ++ r ∧
       (∀ x ∈ tsOf c, x ≤ a.clock + o.la) ∧ Pos H (a.clock + o.la) s' r ∧
-      (a.limit = none → a.upcoming = none → Blocked (a.clock + o.la) r) ∧ TraceOK H o as r rest
+      (a.limit = none → a.upcoming = none → Settled (a.clock + o.la) s' r) ∧ TraceOK H o as r rest
 
 /-- clocks do not go back -/
 def ClockMono (sched : List LoadArgs) : Prop := sched.Pairwise (fun x y => x.clock ≤ y.clock)
@@ -1199,7 +1211,7 @@ theorem trace_not_late {H : History} {o : Opts} {sched : List LoadArgs} {todo : 
       simp only [List.getElem?_cons_zero, Option.some.injEq] at ha
       subst ha
       refine ⟨c, r, rfl, by simp [outEvents], ?_⟩
-      rcases hblk hl hu with rfl | ⟨ts, p, tl, rfl, hnot⟩
+      rcases (hblk hl hu).blocked with rfl | ⟨ts, p, tl, rfl, hnot⟩
       · simp [tsOf]
       · intro x hx
         rw [tsOf_cons_recd] at hx
@@ -1232,7 +1244,7 @@ theorem trace_on_time {H : History} {o : Opts} {sched : List LoadArgs} {todo : L
       simp only [List.getElem?_cons_zero, Option.some.injEq] at ha
       subst ha
       refine ⟨c, r, rfl, by simp [outEvents], hdue, ?_⟩
-      rcases hblk hl hu with rfl | ⟨ts, p, tl, rfl, hnot⟩
+      rcases (hblk hl hu).blocked with rfl | ⟨ts, p, tl, rfl, hnot⟩
       · simp [tsOf]
       · intro x hx
         rw [tsOf_cons_recd] at hx
@@ -1301,22 +1313,29 @@ def Good (s : LState) : Prop := s.st = .complete → s.future = []
 
 /-- from `(s, evs)` to `(s', evs')`: the new events are exactly what was added to the queue or map -/
 structure Step (s : LState) (evs : List Event) (s' : LState) (evs' : List Event) : Prop where
-  evs : ∃ new, evs' = evs ++ new ∧ pending s' = new.foldl absorb (pending s)
+  evs : ∃ new, evs' = evs ++ new ∧ pending s' = new.foldl absorb (pending s) ∧
+    ∀ e ∈ s'.future, e ∈ s.future ∨ e ∈ new
   good : Good s → Good s'
 
 theorem Step.refl (s : LState) (evs : List Event) : Step s evs s evs :=
-  ⟨⟨[], by simp, rfl⟩, id⟩
+  ⟨⟨[], by simp, rfl, fun _ he => Or.inl he⟩, id⟩
 
 theorem Step.trans {s1 s2 s3 : LState} {e1 e2 e3 : List Event} (h1 : Step s1 e1 s2 e2)
     (h2 : Step s2 e2 s3 e3) : Step s1 e1 s3 e3 := by
-  obtain ⟨n1, rfl, p1⟩ := h1.evs
-  obtain ⟨n2, rfl, p2⟩ := h2.evs
-  exact ⟨⟨n1 ++ n2, by simp, by rw [p2, p1, List.foldl_append]⟩, fun g => h2.good (h1.good g)⟩
+  obtain ⟨n1, rfl, p1, f1⟩ := h1.evs
+  obtain ⟨n2, rfl, p2, f2⟩ := h2.evs
+  refine ⟨⟨n1 ++ n2, by simp, by rw [p2, p1, List.foldl_append], ?_⟩, fun g => h2.good (h1.good g)⟩
+  intro e he
+  rcases f2 e he with h | h
+  · rcases f1 e h with h' | h'
+    · exact Or.inl h'
+    · exact Or.inr (List.mem_append_left _ h')
+  · exact Or.inr (List.mem_append_right _ h)
 
 /-- a change of the bookkeeping fields only (never to COMPLETE) -/
 theorem Step.fields {s s' : LState} (evs : List Event) (hf : s'.future = s.future)
     (hv : s'.values = s.values) (hst : s'.st = s.st ∨ s'.st ≠ .complete) : Step s evs s' evs := by
-  refine ⟨⟨[], by simp, by simp [pending, hf, hv]⟩, ?_⟩
+  refine ⟨⟨[], by simp, by simp [pending, hf, hv], fun e he => Or.inl (hf ▸ he)⟩, ?_⟩
   intro g hc
   rw [hf]
   rcases hst with h | h
@@ -1340,15 +1359,29 @@ theorem drain_pending (up : Option Time) (cur : Time) (fut : List Event) :
 theorem drain_nil_of_nil (up : Option Time) (cur : Time) (v : List (Nat × Time × Int)) (u : Option Time) :
     (drain up cur [] v u).2.1 = [] := rfl
 
+theorem drain_subset (up : Option Time) (cur : Time) (fut : List Event) :
+    ∀ (v : List (Nat × Time × Int)) (u : Option Time), ∀ e ∈ (drain up cur fut v u).2.1, e ∈ fut := by
+  induction fut with
+  | nil => intro v u e he; simp [drain] at he
+  | cons x fs ih =>
+    intro v u e he
+    simp only [drain] at he
+    split at he
+    · split at he
+      · exact he
+      · exact List.mem_cons_of_mem _ (ih _ _ e he)
+    · exact he
+
 theorem finish_step (a : LoadArgs) (cur : Time) (s : LState) (evs : List Event) :
     Step s evs (finish a cur s evs).2.1 (finish a cur s evs).2.2 := by
   have hp := drain_pending a.upcoming cur s.future s.values s.until_
+  have hsub := drain_subset a.upcoming cur s.future s.values s.until_
   unfold finish
   cases hd : drain a.upcoming cur s.future s.values s.until_ with
   | mk b r =>
     obtain ⟨fut, v, u⟩ := r
-    rw [hd] at hp
-    simp only at hp
+    rw [hd] at hp hsub
+    simp only at hp hsub
     have hgood : ∀ st', (st' = s.st ∨ (st' = .complete ∧ fut = [])) →
         Good s → Good { s with st := st', future := fut, values := v, until_ := u } := by
       intro st' hst' g hc
@@ -1360,20 +1393,24 @@ theorem finish_step (a : LoadArgs) (cur : Time) (s : LState) (evs : List Event) 
         rw [hd] at h2
         exact h2
       · exact h
+    have hev : ∀ st', ∃ new, evs = evs ++ new ∧
+        pending { s with st := st', future := fut, values := v, until_ := u } = new.foldl absorb (pending s) ∧
+        ∀ e ∈ ({ s with st := st', future := fut, values := v, until_ := u } : LState).future,
+          e ∈ s.future ∨ e ∈ new :=
+      fun st' => ⟨[], by simp, by simpa [pending] using hp, fun e he => Or.inl (hsub e he)⟩
     cases b with
-    | true => exact ⟨⟨[], by simp, by simpa [pending] using hp⟩, hgood s.st (Or.inl rfl)⟩
+    | true => exact ⟨hev s.st, hgood s.st (Or.inl rfl)⟩
     | false =>
       simp only
       split
       · split
         · rename_i he
-          refine ⟨⟨[], by simp, by simpa [pending] using hp⟩, ?_⟩
           have : fut = [] := by simpa using he
-          exact hgood .complete (Or.inr ⟨rfl, this⟩)
-        · exact ⟨⟨[], by simp, by simpa [pending] using hp⟩, hgood s.st (Or.inl rfl)⟩
+          exact ⟨hev .complete, hgood .complete (Or.inr ⟨rfl, this⟩)⟩
+        · exact ⟨hev s.st, hgood s.st (Or.inl rfl)⟩
       · split
-        · exact ⟨⟨[], by simp, by simpa [pending] using hp⟩, hgood s.st (Or.inl rfl)⟩
-        · exact ⟨⟨[], by simp, by simpa [pending] using hp⟩, hgood s.st (Or.inl rfl)⟩
+        · exact ⟨hev s.st, hgood s.st (Or.inl rfl)⟩
+        · exact ⟨hev s.st, hgood s.st (Or.inl rfl)⟩
 
 theorem stAfter_complete {st : St} (h : stAfter st = .complete) : st = .complete := by
   unfold stAfter at h
@@ -1382,7 +1419,7 @@ theorem stAfter_complete {st : St} (h : stAfter st = .complete) : st = .complete
   · exact h
 
 theorem seen_step (fx : Fix) (ts : Time) (s : LState) (evs : List Event) : Step s evs (seen fx ts s) evs := by
-  refine ⟨⟨[], by simp, rfl⟩, ?_⟩
+  refine ⟨⟨[], by simp, rfl, fun _ he => Or.inl he⟩, ?_⟩
   intro g hc
   exact g (stAfter_complete hc)
 
@@ -1401,8 +1438,13 @@ theorem procReal_step (fx : Fix) (a : LoadArgs) (ts : Time) (p : Payload) (cur :
       · exact (seen_step fx ts s evs).trans (finish_step a cur _ evs)
       · split
         · refine (seen_step fx ts s evs).trans (Step.trans ?_ (finish_step a cur _ _))
-          refine ⟨⟨[(ts, kv)], rfl, ?_⟩, ?_⟩
+          refine ⟨⟨[(ts, kv)], rfl, ?_, ?_⟩, ?_⟩
           · simp [pending, enqueue, List.foldl_append]
+          · intro e he
+            simp only [enqueue, List.mem_append, List.mem_singleton] at he
+            rcases he with he | he
+            · exact Or.inl he
+            · exact Or.inr (by simp [he])
           · intro _ hc; simp [enqueue] at hc
         · refine (seen_step fx ts s evs).trans (Step.trans ?_ (finish_step a cur _ _))
           exact Step.fields evs rfl rfl (Or.inr (by simp))
@@ -1515,29 +1557,124 @@ theorem load_step (H : History) (o : Opts) (a : LoadArgs) (s : LState) : DoneSte
         (fun s2 lc2 e2 h => loadLoop_step H o a s [] _ s2 lc2 e2 h)
 
 /-- **Over a whole schedule**: the register map with the queue absorbed is the map obtained by
-absorbing every delivered event in order of delivery; COMPLETE is only reached with an empty queue. -/
+absorbing every delivered event in order of delivery; COMPLETE is only reached with an empty queue;
+whatever is queued was queued before or has been delivered. -/
 theorem runLoads_pending (H : History) (o : Opts) (sched : List LoadArgs) :
     ∀ s, Good s →
     pending (lastState (runLoads H o sched s) s) =
       ((runLoads H o sched s).map outEvents).flatten.foldl absorb (pending s) ∧
-    Good (lastState (runLoads H o sched s) s) := by
+    Good (lastState (runLoads H o sched s) s) ∧
+    ∀ e ∈ (lastState (runLoads H o sched s) s).future,
+      e ∈ s.future ∨ e ∈ ((runLoads H o sched s).map outEvents).flatten := by
   induction sched with
-  | nil => intro s g; exact ⟨rfl, g⟩
+  | nil => intro s g; exact ⟨rfl, g, fun _ he => Or.inl he⟩
   | cons a as ih =>
     intro s g
     have h1 := load_step H o a s
     simp only [runLoads]
     cases hl : load H o a s with
-    | hang => exact ⟨rfl, g⟩
+    | hang => exact ⟨rfl, g, fun _ he => Or.inl he⟩
     | done t s' evs =>
       rw [hl] at h1
       simp only [DoneStep] at h1
-      obtain ⟨new, hnew, hp⟩ := h1.evs
+      obtain ⟨new, hnew, hp, hf⟩ := h1.evs
       simp only [List.nil_append] at hnew
       subst hnew
-      obtain ⟨i1, i2⟩ := ih s' (h1.good g)
+      obtain ⟨i1, i2, i3⟩ := ih s' (h1.good g)
       simp only [lastState, List.map_cons, List.flatten_cons, outEvents, List.foldl_append]
-      exact ⟨by rw [i1, hp], i2⟩
+      refine ⟨by rw [i1, hp], i2, ?_⟩
+      intro e he
+      rcases i3 e he with h | h
+      · rcases hf e h with h' | h'
+        · exact Or.inl h'
+        · exact Or.inr (List.mem_append_left _ h')
+      · exact Or.inr (List.mem_append_right _ h)
+
+/-! ### completion -/
+
+theorem drain_all (cur : Time) (fut : List Event) :
+    ∀ (v : List (Nat × Time × Int)) (u : Option Time), (∀ e ∈ fut, e.1 ≤ cur) →
+    (drain none cur fut v u).1 = false ∧ (drain none cur fut v u).2.1 = [] := by
+  induction fut with
+  | nil => intro v u _; exact ⟨rfl, rfl⟩
+  | cons e fs ih =>
+    intro v u h
+    have he : e.1 ≤ cur := h e (by simp)
+    simp only [drain, he, ↓reduceIte, upcomingHit, Bool.false_eq_true]
+    exact ih _ _ (fun e' he' => h e' (by simp [he']))
+
+/-- an exhausted replay becomes COMPLETE at the first call (without `upcoming`) whose clock has
+reached everything still queued -/
+theorem load_exhausted_complete (H : History) (o : Opts) (a : LoadArgs) (s : LState)
+    (hst : s.st = .exhausted ∨ s.st = .complete) (hgen : s.gen = .noop) (hu : a.upcoming = none)
+    (hfut : ∀ e ∈ s.future, e.1 ≤ a.clock) :
+    ∃ t s', load H o a s = .done t s' [] ∧ s'.st = .complete := by
+  rcases hst with hst | hst
+  · have hseen : (seen o.fix a.clock s).st = .exhausted := by simp [seen, hst, stAfter_exhausted]
+    have hd := drain_all a.clock (seen o.fix a.clock s).future (seen o.fix a.clock s).values
+      (seen o.fix a.clock s).until_ hfut
+    have hfin : ∃ s', finish a a.clock (seen o.fix a.clock s) [] = (.brk, s', []) ∧ s'.st = .complete := by
+      unfold finish
+      rw [hu]
+      cases hdr : drain none a.clock (seen o.fix a.clock s).future (seen o.fix a.clock s).values
+          (seen o.fix a.clock s).until_ with
+      | mk b r =>
+        obtain ⟨fut, v, u⟩ := r
+        rw [hdr] at hd
+        simp only at hd
+        obtain ⟨rfl, rfl⟩ := hd
+        simp only [hseen, ↓reduceIte, List.isEmpty_nil]
+        exact ⟨_, rfl, rfl⟩
+    obtain ⟨s', hf, hs'⟩ := hfin
+    have hrun : runGen o a s a.clock [] = ⟨.brk, s', a.clock, []⟩ := by
+      simp [runGen, hgen, procReal, hst, hf]
+    have hload : load H o a s = continueWith (loadLoop H o a (openBudget H)) (runGen o a s a.clock []) := by
+      simp [load, hst]
+    rw [hload, hrun]
+    exact ⟨some a.clock, s', by simp [continueWith, afterFor, hs'], hs'⟩
+  · exact ⟨_, s, load_complete H o a s hst, hst⟩
+
+theorem runLoads_append (H : History) (o : Opts) (xs ys : List LoadArgs) :
+    ∀ s, (∀ out ∈ runLoads H o xs s, out ≠ .hang) →
+    runLoads H o (xs ++ ys) s = runLoads H o xs s ++ runLoads H o ys (lastState (runLoads H o xs s) s) := by
+  induction xs with
+  | nil => intro s _; rfl
+  | cons a as ih =>
+    intro s hne
+    simp only [List.cons_append, runLoads] at hne ⊢
+    cases hl : load H o a s with
+    | hang => rw [hl] at hne; simp at hne
+    | done t s' evs =>
+      rw [hl] at hne
+      simp only [List.mem_cons, ne_eq, forall_eq_or_imp] at hne
+      simp only [List.cons_append, lastState]
+      rw [ih s' hne.2]
+
+theorem lastState_append_done (outs : List LoadOut) (t : Option Time) (s' : LState) (e : List Event)
+    (s0 : LState) : lastState (outs ++ [.done t s' e]) s0 = s' := by
+  induction outs generalizing s0 with
+  | nil => rfl
+  | cons o outs ih =>
+    cases o with
+    | hang => exact ih s0
+    | done t1 s1 e1 => exact ih s1
+
+/-- the position after the last call of a trace -/
+theorem trace_last {H : History} {o : Opts} {xs : List LoadArgs} {b : LoadArgs} {todo : List Line}
+    {outs : List LoadOut} (h : TraceOK H o (xs ++ [b]) todo outs) (s0 : LState) :
+    ∃ c r, todo = c ++ r ∧ (outs.map outEvents).flatten = deliverable c ∧
+      Pos H (b.clock + o.la) (lastState outs s0) r ∧
+      (b.limit = none → b.upcoming = none → Settled (b.clock + o.la) (lastState outs s0) r) := by
+  induction xs generalizing todo outs s0 with
+  | nil =>
+    obtain ⟨c, r, t, s', rest, rfl, rfl, _, hpos, hset, hrest⟩ := h
+    simp only [TraceOK] at hrest
+    subst hrest
+    exact ⟨c, r, rfl, by simp [outEvents], hpos, hset⟩
+  | cons a as ih =>
+    obtain ⟨c, r, t, s', rest, rfl, rfl, _, _, _, hrest⟩ := h
+    obtain ⟨c', r', rfl, h2, h3, h4⟩ := ih hrest s'
+    exact ⟨c ++ c', r', by simp, by simp [outEvents, h2, deliverable_append], h3, h4⟩
 
 /-! ### what the register map holds -/
 
